@@ -599,7 +599,7 @@ class Interp:
             m = self.models.get(("symattr", type(obj), name))
             if m is None:
                 raise EngineError(f"attribute {name!r} of symbolic {type(obj).__name__}")
-            return functools.partial(m, obj)
+            return _NativeBound(m, obj)
         cls = type(obj)
         if is_repo_class(cls):
             static = inspect.getattr_static(cls, name, MISSING)
@@ -1092,6 +1092,18 @@ class Interp:
         v = self.eval(node.value, env)
         env.vars[node.target.id] = v
         return v
+
+
+class _NativeBound:
+    """a model method bound to a symbolic receiver; called natively by the interpreter"""
+
+    __pyvc_native__ = True
+
+    def __init__(self, fn, obj):
+        self.fn, self.obj = fn, obj
+
+    def __call__(self, *a, **k):
+        return self.fn(self.obj, *a, **k)
 
 
 class _SuperProxy:
